@@ -10,6 +10,7 @@ CONSTANTS
   QueueSize = 10
   SpecialCids = {}
   Journal = TRUE
+  Fork = FALSE
   DumpFile = FALSE
   VersionedCids = {}
   QuietCids = {}
